@@ -312,7 +312,7 @@ def graph_shape(draw, n):
 
 @st.composite
 def residue_graph(draw, resnames, max_res=8, label_pool=(), routes=("json", "json", "seq", "txt"),
-                  min_res=1):
+                  min_res=1, name_modes=("homo", "block", "random")):
     n = draw(st.integers(min_res, max_res))
     kind, edges = draw(graph_shape(n))
     start = draw(st.sampled_from([1, 1, 1, 2, 5, 17]))
@@ -321,7 +321,7 @@ def residue_graph(draw, resnames, max_res=8, label_pool=(), routes=("json", "jso
         route = "json"
     if route != "json":
         start = 1
-    mode = draw(st.sampled_from(["homo", "block", "random"]))
+    mode = draw(st.sampled_from(list(name_modes)))
     if mode == "homo":
         names = [draw(st.sampled_from(resnames))] * n
     elif mode == "block":
@@ -363,8 +363,8 @@ LABELS = [("chiral", "R"), ("chiral", "S"), ("tag", "x")]
 @st.composite
 def case(draw, with_links=True, max_res=8, mixed_nrexcl=False, routes=("json", "json", "seq", "txt"),
          allow_itp=True, allow_replace=True, min_res=1, allow_dangling=True, link_bias=False,
-         bonded_only=False, f22_safe=False):
-    nblocks = draw(st.integers(1, 3))
+         bonded_only=False, f22_safe=False, min_blocks=1, name_modes=("homo", "block", "random")):
+    nblocks = draw(st.integers(min_blocks, 3))
     names = RESNAMES[:nblocks]
     blocks = []
     base_excl = draw(st.integers(0, 3))
@@ -378,7 +378,7 @@ def case(draw, with_links=True, max_res=8, mixed_nrexcl=False, routes=("json", "
     label_pool = LABELS if use_labels else []
     links = []
     graph, route = draw(residue_graph(names, max_res=max_res, label_pool=label_pool, routes=routes,
-                                      min_res=min_res))
+                                      min_res=min_res, name_modes=name_modes))
     prefer = sorted({n["resname"] for n in graph["nodes"]}) if link_bias else None
     if with_links:
         for _ in range(draw(st.integers(1 if link_bias else 0, 4))):
@@ -626,14 +626,24 @@ def run_gen_params(spec, ctx, outname="out.itp", capture=True):
         run.captured["missing"] = missing
         return iter(missing)
 
+    import vermouth.gmx.itp as vitp
+    orig_write = vitp.write_molecule_itp
+
+    def write_wrapper(molecule, *args, **kw):
+        # the molecule that is written is "the molecule that was built"
+        run.captured["molecule"] = molecule
+        return orig_write(molecule, *args, **kw)
+
     if capture:
         gen_itp.find_missing_edges = find_wrapper
+        vitp.write_molecule_itp = write_wrapper
     try:
         gen_itp.gen_params(outpath=out, **kwargs)
     except Exception as err:  # classified by the caller
         run.exc = err
     finally:
         gen_itp.find_missing_edges = orig_find
+        vitp.write_molecule_itp = orig_write
     run.out_exists = out.exists()
     if run.out_exists:
         run.text = out.read_text()
